@@ -123,6 +123,11 @@ func Main(prop string) {
 	var passReport []map[string]any
 	completed := 0
 	for _, p := range passes {
+		if only := os.Getenv("VERIF_PASS"); only != "" && !strings.Contains(p.Name, only) {
+			// development aid: run a single pass; the run is reported as not exhaustive
+			r.Cap("pass skipped by VERIF_PASS: " + p.Name)
+			continue
+		}
 		if time.Now().After(r.Deadline) || len(total.Violations) >= 25 {
 			passReport = append(passReport, map[string]any{"pass": p.Name, "bounds": p.B, "completed": false, "executions": 0})
 			r.Cap("pass not started: " + p.Name)
